@@ -81,6 +81,7 @@ def rhs_list(n, M):
     out.append(("mixed", pat))
     out.append(("large", 1e5 * np.resize(np.array([1.0, -1e-5, 0.005, 1.0, 0.1]), n)))
     out.append(("range", M.dot(np.resize(np.array([1.0, 2.0, -1.0, 0.5, 3.0]), n))))
+    out.append(("tiny", 1e-10 * np.resize(np.array([1.0, -2.0, 0.5, 3.0, -0.25]), n)))
     if n > 8:
         out = [o for o in out if not o[0].startswith("e")] + [("e0", np.eye(n)[0]), ("e_mid", np.eye(n)[n // 2])]
     return out
@@ -132,10 +133,14 @@ def run_case(case):
                 guesses = [("none", None), ("zero", np.zeros(n))]
                 if exact is not None:
                     guesses += [("exact", exact), ("perturbed", exact + 1e-3 * np.resize(np.array([1.0, -1.0, 2.0, -2.0, 1.0]), n)),
+                                # a guess that is very good but not at rounding level (a direct solver must still solve)
+                                ("nearly_exact", exact * (1.0 + 1e-10) + 1e-11 * np.resize(np.array([1.0, -1.0, 2.0]), n)),
                                 ("far", exact + 100.0 * max(1.0, float(np.linalg.norm(exact))) * np.resize(np.array([1.0, -1.0, 0.5]), n)),
                                 # a warm start that solves the system with the *other* orientation of the matrix
                                 ("other_orientation", np.linalg.solve(A.T, b))]
                 for gname, g in guesses:
+                    if rn == "tiny" and gname in ("perturbed", "far"):
+                        continue  # a guess 1e7 ... 1e15 times larger than the solution: its rounding noise exceeds any residual target
                     at = dict(at0, rhs=rn, trans=trans, guess=gname)
                     stats["solves"] += 1
                     if not np.array_equal(np.diag(np.diag(M)), M):
